@@ -37,6 +37,9 @@ def _corpus(pid: str):
     # property's check must stay silent on each of them
     for d in sorted((seeded / "twins").glob("*/patch.diff")):
         out.append({"id": "twin:" + d.parent.name, "prop": pid, "kind": "twin", "patch": str(d), "what": "independent benign refactoring " + d.parent.name})
+    only = os.environ.get("HMSLINT_SELFTEST_ONLY")  # development aid: run the variants whose id contains this text
+    if only:
+        out = [v for v in out if only in v["id"]]
     return out
 
 
